@@ -212,7 +212,10 @@ Print Assumptions C05_checked_unit_rows.
 
 (* ================================================================ 4. the program of a unit *)
 (* line_program_for_CU returns the program parsed at the offset DW_AT_stmt_list holds, whatever
-   was looked up before (cache hit or miss), and keeps the cache coherent *)
+   was looked up or decoded before (cache hit or miss), and keeps the cache coherent.  The model's
+   structs (mstructs) carry byte order, 32/64-bit format and address size only: the DWARF version
+   of the looking-up unit does not enter, so units of different versions that designate one table
+   get the same program, extent and rows (exercised by the 'cu' correspondence stream) *)
 Theorem C05_program_for_unit : forall secs cache cu off lp,
   cache_coherent secs (cu_structs cu) cache ->
   attr_get (cu_top_attrs cu) "DW_AT_stmt_list" = Some off ->
